@@ -16,8 +16,8 @@ From ZI Require Import Model.Ro Model.Adapter Model.Lookup Model.RegSys Spec.Reg
 
 (* History form (the property as stated): inside any history, a lookup-family call answers what
    it answers after the same mutations (registrations, subscriptions, registry __bases__,
-   specification __bases__ incl. class / instance declaration changes) with every earlier query
-   erased, i.e. on registries that performed no earlier lookup. *)
+   rebuild(), specification __bases__ incl. class / instance declaration changes) with every
+   earlier query erased, i.e. on registries that performed no earlier lookup. *)
 Theorem C05_cache_transparent :
   forall (call : value -> list nat -> option nat) (fl : flavour) (g : graph) (ifs : list bool)
          (pre : list cop) (q : rop) (post : list cop),
@@ -89,12 +89,14 @@ Definition ex_ifs : list bool := [true; true; true; true].
 Definition ex_call (v : value) (os : list nat) : option nat := Some (vid v + length os).
 Definition v7 : value := mkV 7 7.
 
-(* rebuild() is covered by the theorems above since Spec/RegChain.wf_op admits it.  It used to break
-   transparency: it re-runs __init__, which forgot the sub-registries of an invalidating
-   registry, so a later registration in the base no longer reached the sub-registry's caches
-   (found while proving C05/C06/C07; repaired in /repo by "fix: rebuild() keeps the registries
-   based on the rebuilt one", and Model/RegSys.v ORebuild follows the repaired code).  The
-   witness history is now transparent: *)
+(* rebuild() is one of the mutations the theorems quantify over (Spec/RegChain.wf_op admits
+   ORebuild): the storage of the registry is replaced by its replay, its generation strictly
+   grows, its caches and - invalidating flavour - those of all its sub-registries are emptied.
+   It used to break transparency (__init__ forgot the sub-registries of an invalidating registry,
+   so a later registration in the base no longer reached the sub-registry's caches; found while
+   proving C05/C06/C07, repaired in /repo by "fix: rebuild() keeps the registries based on the
+   rebuilt one"; Model/RegSys.v ORebuild follows the repaired code).  The former witness is now an
+   instance of the general theorem: *)
 Definition ex_rebuild_pre : list cop :=
   [CReg (ONewReg Push []); CReg (ONewReg Push [0]); CReg (QLookup 1 [1] 3 (NStr 0));
    CReg (ORebuild 0); CReg (ORegister 0 [Some 1] 3 0 (Some v7))].
@@ -104,6 +106,30 @@ Example C05_rebuild_witness_transparent :
   nth (length ex_rebuild_pre) (crun ex_call (mkCS ex_g ex_ifs []) (ex_rebuild_pre ++ [CReg q])) [] =
   nth (length (erase_lookups ex_rebuild_pre))
       (crun ex_call (mkCS ex_g ex_ifs []) (erase_lookups ex_rebuild_pre ++ [CReg q])) [].
+Proof. apply (C05_cache_transparent ex_call Push ex_g ex_ifs ex_rebuild_pre _ []); reflexivity. Qed.
+
+(* ... and the registration made after rebuild() is seen through the sub-registry *)
+Example ex_rebuild_answers :
+  crun ex_call (mkCS ex_g ex_ifs []) (ex_rebuild_pre ++ [CReg (QLookup 1 [1] 3 (NStr 0))]) =
+  [[]; []; [0]; []; []; [1; 7]].
+Proof. vm_compute. reflexivity. Qed.
+
+(* verifying flavour: the base gains an entry, the sub-registry looks up (generation snapshot),
+   the entry is swapped (count unchanged), the base is rebuilt: the generation keeps counting, so
+   the snapshot no longer matches and the new value is found *)
+Definition ex_rebuild_ver : list cop :=
+  [CReg (ONewReg Verifying []); CReg (ONewReg Verifying [0]);
+   CReg (ORegister 0 [Some 1] 3 0 (Some v7));
+   CReg (QLookup 1 [2] 3 (NStr 0));
+   CReg (ORegister 0 [Some 1] 3 0 (Some (mkV 8 8)));
+   CReg (ORebuild 0);
+   CReg (QLookup 1 [2] 3 (NStr 0))].
+
+Example ex_rebuild_ver_wf : cwf_hist Verifying 0 ex_rebuild_ver = true.
+Proof. reflexivity. Qed.
+
+Example ex_rebuild_ver_flips :
+  crun ex_call (mkCS ex_g ex_ifs []) ex_rebuild_ver = [[]; []; []; [1; 7]; []; []; [1; 8]].
 Proof. vm_compute. reflexivity. Qed.
 
 (* ---- non-vacuity: well-formed histories in which the invalidation matters *)
